@@ -148,6 +148,9 @@ class ChildOperationExecutor(OperationExecutor[T]):
             InvocationError: Re-raised after checkpointing FAIL
             CallableRuntimeError: Raised for other exceptions after checkpointing FAIL
         """
+        # an orphaned map/parallel branch must not run the user function of an existing operation
+        self.state.raise_if_orphaned(self.operation_identifier.operation_id)
+
         logger.debug(
             "▶️ Executing child context for id: %s, name: %s",
             self.operation_identifier.operation_id,
